@@ -199,7 +199,7 @@ def parse_tlc_output(text, res):
 
 
 def run_tlc(module, cfg, env=None, workers=1, timeout=600, xmx="2g", job=None, extra=None,
-            deque=False, simulate=None, coverage=False):
+            deque=False, simulate=None, coverage=False, slow_start=False):
     """Runs TLC on spec/<module>.tla with spec/<cfg>; returns a TlcResult."""
     job = job or ("%s-%s-%d" % (module, os.getpid(), int(time.time() * 1000) % 1000000))
     meta = os.path.join(BUILD, "tlc", job)
@@ -207,6 +207,10 @@ def run_tlc(module, cfg, env=None, workers=1, timeout=600, xmx="2g", job=None, e
     os.makedirs(meta, exist_ok=True)
     jopts = ["-Xss512m", "-Xmx" + xmx, "-XX:+UseSerialGC" if workers <= 2 else "-XX:+UseParallelGC",
              "-Djava.io.tmpdir=" + meta]
+    if workers <= 2 and not slow_start:
+        # many short single-worker jobs: JVM start-up dominates and does not scale in this sandbox;
+        # a small processor count and the C1 compiler only make it about three times cheaper
+        jopts += ["-XX:ActiveProcessorCount=2", "-XX:TieredStopAtLevel=1"]
     if deque:
         jopts.append("-Dtlc2.tool.queue.IStateQueue=StateDeque")
     cmd = ["java"] + jopts + ["-cp", TLA_JAR + ":" + TLA_DEPS, "tlc2.TLC",
@@ -242,7 +246,7 @@ def run_tlc(module, cfg, env=None, workers=1, timeout=600, xmx="2g", job=None, e
 
 
 def parallel(fn, items, jobs=None):
-    jobs = jobs or max(1, min(12, NCPU - 2))
+    jobs = jobs or max(1, min(6, NCPU - 2))
     with ThreadPoolExecutor(max_workers=jobs) as ex:
         return list(ex.map(fn, items))
 
